@@ -276,7 +276,10 @@ def body_copula(case):
 
             h = float(grid.h)
             cov = np.array([[float(vol_adjustment_ij(i, j, h, proc.model)) for j in range(d)] for i in range(d)])
-            if float(np.abs(added - cov).max()) > 1e-8 * float(np.abs(cov).max()) + 1e-14:
+            # (the quadratures may leave that matrix slightly indefinite - a diagonal entry integrated to 0 next to a non-zero
+            # covariance; its square root then belongs to its positive part, which differs by the negative eigenvalue)
+            neg = max(0.0, -float(np.linalg.eigvalsh((cov + cov.T) / 2).min()))
+            if float(np.abs(added - cov).max()) > 1e-8 * float(np.abs(cov).max()) + 2.0 * neg + 1e-14:
                 out.append(Violation(f"C04/copula/d{d}/infinite-variation/added-variance-is-not-the-small-jump-covariance",
                                      f"D D^T - diag(sigma^2) = {added.tolist()}, covariance of the jumps inside the central "
                                      f"cell (vol_adjustment_ij) = {cov.tolist()}; {detail}"))
@@ -295,7 +298,8 @@ def body_copula(case):
                     out.append(Violation(f"C04/copula/d{d}/infinite-variation/small-jump-covariance",
                                          f"independent components: vol_adjustment_ij = {cov.tolist()}, second moments of the "
                                          f"margins over (-h/2, h/2) = {np.diag(ref).tolist()} (quadrature bound {bound:.3g}); {detail}"))
-            out.append(Violation("LABEL:infinite-variation-independent-components"))
+            if case["copula"]["type"] == "independent":
+                out.append(Violation("LABEL:infinite-variation-independent-components"))
     return out
 
 
